@@ -3,19 +3,88 @@
    The model run against the code is the REPAIRED variant with locking: on the tree as pinned the
    CAS cases and the unlocked interleavings disagree (findings D6, D7).
    [sha1] is instantiated with the Gallina SHA-1; [edv] (ed25519 verification) is passed in by the
-   runner as a lookup into the verdict table printed by the harness. *)
+   runner as a lookup into the verdict table printed by the harness.
+
+   Interface discipline: the OCaml driver uses ONLY the [rb_*] functions below and the basic types
+   of ExtrOcamlBasic (list, option, pairs, bool) plus N/Z.  No record field, constructor or type name
+   of Bep44.v appears in the driver, so the flat extraction may rename them freely when other models
+   define the same names. *)
 From Dht Require Import Base Bep44 Sha1.
 Local Open Scope Z_scope.
 
+(* ---- items ---- *)
+Definition rb_mk_item (bv k salt sg : bytes) (cas seq created : Z) : item := mkItem bv k salt sg cas seq created.
+Definition rb_it_bv (i : item) : bytes := it_bv i.
+Definition rb_it_k (i : item) : bytes := it_k i.
+Definition rb_it_salt (i : item) : bytes := it_salt i.
+Definition rb_it_sig (i : item) : bytes := it_sig i.
+Definition rb_it_cas (i : item) : Z := it_cas i.
+Definition rb_it_seq (i : item) : Z := it_seq i.
+Definition rb_it_created (i : item) : Z := it_created i.
+Definition rb_is_mutable (i : item) : bool := is_mutable i.
+
+(* result codes: 0 = accepted / reply, -1 = a non-KRPC error, otherwise the KRPC error code *)
+Definition rb_put_code (r : put_res) : Z :=
+  match r with POk => 0 | PErr c => c | POther => -1 end.
+Definition rb_opt_code (r : option Z) : Z := match r with None => 0 | Some c => c end.
+
+(* ---- pure functions ---- *)
 Definition rb_buf (salt bv : bytes) (seq : Z) : bytes := buffer_to_sign salt bv seq.
 Definition rb_target (i : item) : bytes := target sha1 i.
 Definition rb_mtarget (k salt : bytes) : bytes := mutable_target sha1 k salt.
-Definition rb_check (edv : bytes -> bytes -> bytes -> bool) (i : item) : option Z := check edv i.
-Definition rb_checkin (stored incoming : item) : option Z := check_incoming Repaired stored incoming.
+Definition rb_check (edv : bytes -> bytes -> bytes -> bool) (i : item) : Z := rb_opt_code (check edv i).
+Definition rb_checkin (stored incoming : item) : Z := rb_opt_code (check_incoming Repaired stored incoming).
 
-(* sequential histories *)
-Definition rb_seq_step (edv : bytes -> bytes -> bytes -> bool) (exp : Z) (st : sstate) (e : event)
-  : sstate * obs := seq_step sha1 edv Repaired exp st e.
+(* ---- sequential histories ---- *)
+Definition rb_s0 : sstate := mkSState 0 [].
+Definition rb_sclock (st : sstate) : Z := s_clock st.
+Definition rb_sstore (st : sstate) : list (bytes * item) := s_store st.
+Definition rb_swith_store (st : sstate) (s : list (bytes * item)) : sstate := mkSState (s_clock st) s.
+
+Section Seq.
+  Variable edv : bytes -> bytes -> bytes -> bool.
+  Variable exp : Z.
+
+  Definition rb_sadvance (st : sstate) (d : Z) : sstate := fst (seq_step sha1 edv Repaired exp st (EAdvance d)).
+
+  Definition rb_sput (st : sstate) (i : item) : sstate * Z :=
+    match seq_step sha1 edv Repaired exp st (EPut i) with
+    | (st', OPut r) => (st', rb_put_code r)
+    | (st', _) => (st', -2)
+    end.
+
+  Definition rb_sget (st : sstate) (t : bytes) : sstate * option item :=
+    match seq_step sha1 edv Repaired exp st (EGet t) with
+    | (st', OGet r) => (st', r)
+    | (st', _) => (st', None)
+    end.
+
+  (* inbound put: 0 = reply, otherwise the error code sent *)
+  Definition rb_swput (st : sstate) (bv k salt sg : bytes) (cas : Z) (seq : option Z) : sstate * Z :=
+    match seq_step sha1 edv Repaired exp st (EWirePut (mkPutArgs bv k salt sg cas seq)) with
+    | (st', OWirePut SReply) => (st', 0)
+    | (st', OWirePut (SError c)) => (st', c)
+    | (st', _) => (st', -2)
+    end.
+
+  (* inbound get: the seq field and the (v, k, sig) fields of the reply *)
+  Definition rb_swget (st : sstate) (t : bytes) (sq : option Z)
+    : sstate * (option Z * option (bytes * bytes * bytes)) :=
+    match seq_step sha1 edv Repaired exp st (EWireGet t sq) with
+    | (st', OWireGet g) => (st', (gr_seq g, gr_val g))
+    | (st', _) => (st', (None, None))
+    end.
+
+  (* Server.Put: code 0 = stored and the query (v, k, salt, sig, cas, seq) goes out *)
+  Definition rb_slput (st : sstate) (bv : bytes) (k : option bytes) (salt sg : bytes) (cas seq : Z)
+    : sstate * (Z * option (bytes * bytes * bytes * bytes * Z * option Z)) :=
+    match seq_step sha1 edv Repaired exp st (ELocalPut (mkPutIn bv k salt sg cas seq)) with
+    | (st', OLocal (LQuery a)) =>
+        (st', (0, Some (pa_bv a, pa_k a, pa_salt a, pa_sig a, pa_cas a, pa_seq a)))
+    | (st', OLocal (LErr r)) => (st', (rb_put_code r, None))
+    | (st', _) => (st', (-2, None))
+    end.
+End Seq.
 
 (* ---- concurrent cases: the harness acts on one thread at a time ("start it" or "let it perform the
    store call it is waiting at") and then reports, for every thread, where it is.  Lock acquire and
@@ -28,7 +97,29 @@ Fixpoint mem_nat (x : nat) (l : list nat) : bool :=
 Fixpoint remove_nat (x : nat) (l : list nat) : list nat :=
   match l with [] => [] | y :: r => if Nat.eqb x y then remove_nat x r else y :: remove_nat x r end.
 
-Definition rb_cinit (ths : list thread) (s : store) : cstate := mkC (g_init ths s) [].
+Definition rb_thread_put (i : item) (now : Z) : thread := mkThread (TPut i) now.
+Definition rb_thread_get (t : bytes) (now : Z) : thread := mkThread (TGet t) now.
+
+Definition rb_cinit (ths : list thread) (s : list (bytes * item)) : cstate := mkC (g_init ths s) [].
+Definition rb_cstore (c : cstate) : list (bytes * item) := g_store (c_g c).
+Definition rb_cwaiting (c : cstate) (tid : nat) : bool := mem_nat tid (c_wait c).
+
+(* where a thread is, as the harness can see it: (kind, payload)
+   0 not started | 1 waiting for the lock | 2 before s.Get | 3 before s.Put | 4 before s.Del |
+   5 about to return (never visible) | 6 put returned (payload: code) | 7 get returned not-found |
+   8 get returned an item (payload: its seq) | 9 no such thread *)
+Definition rb_cstatus (c : cstate) (tid : nat) : Z * Z :=
+  match nth_error (g_pcs (c_g c)) tid with
+  | None => (9, 0)
+  | Some PcInit => if mem_nat tid (c_wait c) then (1, 0) else (0, 0)
+  | Some PcPutGet | Some PcGetGet => (2, 0)
+  | Some PcPutPut => (3, 0)
+  | Some PcGetDel => (4, 0)
+  | Some (PcUnlock _) => (5, 0)
+  | Some (PcDone (RPut r)) => (6, rb_put_code r)
+  | Some (PcDone (RGet None)) => (7, 0)
+  | Some (PcDone (RGet (Some i))) => (8, it_seq i)
+  end.
 
 Section Conc.
   Variable edv : bytes -> bytes -> bytes -> bool.
